@@ -391,6 +391,13 @@ def write_evidence(mod, tier, seed, acc, wall, violations, known_seen, extra=Non
         'exhaustive': False,
     }
     if extra: cov.update(extra)
+    enum = [k for k, v in (cov.get('searches') or {}).items() if v.get('kind') == 'enum']
+    other = [k for k, v in (cov.get('searches') or {}).items() if v.get('kind') != 'enum']
+    if enum:
+        cov['explanation'] = ('completely enumerated sub-spaces in this run: %s; generated (not exhaustive) searches: %s. '
+                              '"exhaustive" is true only when every search of the run is a complete enumeration.' % (
+                                  ', '.join(enum), ', '.join(other) or 'none'))
+        cov['exhaustive'] = not other and 'atheris_campaigns' not in cov
     ev = {'property_id': mod.ID, 'tier': tier, 'seed': seed, 'level': 'exploration',
           'coverage': cov, 'assumptions': list(getattr(mod, 'ASSUMPTIONS', [])),
           'wall_s': round(wall, 2), 'violations': violations}
